@@ -168,7 +168,20 @@ def gen_case(rng):
     cw = max(0.0, min(b[3], win['x_max']) - max(b[0], win['x_min']))
     chh = max(0.0, min(b[4], win['y_max']) - max(b[1], win['y_min']))
     cd = max(0.0, min(b[5], win['z_max']) - max(b[2], win['z_min']))
-    choice = rng.choice(['none', 'width', 'height', 'depth', 'area', 'volume', 'avis', 'vvis', 'above'])
+    choice = rng.choice(['none', 'width', 'height', 'depth', 'area', 'volume', 'avis', 'vvis', 'above',
+                         'mid-width', 'mid-height', 'mid-depth', 'all-three', 'all-three'])
+    # thresholds strictly between the extents that occur (well-conditioned on every frame), one axis at a time and
+    # all three axes with different values: a threshold applied to the wrong axis then changes the outcome
+    off = rng.choice([-0.37, 0.37])
+    if choice == 'mid-width':
+        thr['min_width'] = max(0.0, cw + off)
+    elif choice == 'mid-height':
+        thr['min_height'] = max(0.0, chh + off)
+    elif choice == 'mid-depth':
+        thr['min_depth'] = max(0.0, cd + off)
+    elif choice == 'all-three':
+        vals = rng.sample([0.63, 1.37, 2.37, 3.63, 4.37], 3)
+        thr['min_width'], thr['min_height'], thr['min_depth'] = vals
     if choice == 'width':
         thr['min_width'] = cw
     elif choice == 'height':
